@@ -81,9 +81,10 @@ class ListProxy(list, ContainerValueMixin):
         index: Union[int, slice],  # type: ignore[override]
         item: Union[Any, Iterable],
     ) -> None:
-        if isinstance(index, slice) and isinstance(item, (list, tuple)):
+        if isinstance(index, slice):
+            # any iterable may be assigned to a slice, as with list
             super().__setitem__(index, [self._validate(i) for i in item])
-        elif isinstance(index, int):
+        else:
             super().__setitem__(index, self._validate(item))
 
     def _validate(self, value: Any) -> Any:
